@@ -682,12 +682,14 @@ def reject_case(draw):
 # ------------------------------------------------------------------ from_string
 
 
-FS_KINDS = ["digit", "digit", "length-1", "length+1", "line-number", "renumber", "swap"]
+FS_KINDS = ["digit", "drop", "length-1", "length+1", "line-number", "renumber", "swap"]   # drop: the line is lost
 
 
 @st.composite
 def fs_case(draw):
     three = draw(st.booleans())
+    # one text in three mixes named (3-line) and bare (2-line) entries
+    mixed = draw(st.integers(0, 2)) == 0
     n = draw(st.integers(1, 6))
     # Which entries are damaged and how comes from ONE uniform draw (3 decimal digits per entry):
     # Hypothesis' generation phase likes to copy one entry's draws over another's, which makes the
@@ -695,14 +697,15 @@ def fs_case(draw):
     plan = draw(gt.uniform_int(0, 10**18 - 1))
     entries = []
     for j in range(n):
-        f = draw(gt.fields(canonical=draw(st.booleans()), with_name=three, for_from_string=True))
+        named = draw(st.booleans()) if mixed else three
+        f = draw(gt.fields(canonical=draw(st.booleans()), with_name=named, for_from_string=True))
         r = plan // 1000**j % 1000
         cor = None
         if r % 10 < 4:
             q = r // 10
             cor = dict(kind=FS_KINDS[q % 7], line=q // 7 % 2, pos=draw(st.integers(0, 999)),
                        val=draw(st.integers(0, 8)))
-        entries.append(dict(tle=f, corrupt=cor))
+        entries.append(dict(tle=f, corrupt=cor, named=named))
     comments = draw(st.sampled_from(["default", "default", "#", ";", "%", "REM"]))
     mark = "#" if comments == "default" else comments
     for ent in entries:
@@ -729,6 +732,9 @@ def _corrupt(l1, l2, cor):
         d = tf.DIGITS[(tf.DIGITS.index(ln[c]) + 1 + cor["val"]) % 10]
         lines[k] = ln[:c] + d + ln[c + 1:]
         what = f"digit line {k + 1} column {c + 1} {ln[c]}->{d}"
+    elif kind == "drop":
+        lines[k] = None
+        what = f"line {k + 1} lost"
     elif kind == "length-1":
         c = cor["pos"] % len(ln)
         lines[k] = ln[:c] + ln[c + 1:]
@@ -766,11 +772,11 @@ def build_text(case):
     for idx, ent in enumerate(case["entries"]):
         f = ent["tle"]
         l1, l2 = tf.format_lines(f)
-        block = [f["name"]] if case["three"] else []
+        block = [f["name"]] if ent.get("named", case["three"]) and f.get("name") else []
         if ent["corrupt"]:
             l1, l2, what = _corrupt(l1, l2, ent["corrupt"])
             notes.append(f"entry {idx}: {what}")
-        out.append(block + [l1, l2])
+        out.append(block + [x for x in (l1, l2) if x is not None])
     flat = [ln for block in out for ln in block]
     for pos, text in sorted(case["filler"], key=lambda x: -x[0]):
         flat.insert(min(pos, len(flat)), text)
@@ -855,11 +861,16 @@ def check_from_string(case):
             raise Violation(f"from_string:{kind}", f"{len(lines)} entries yielded, {len(want)} valid entries in the text "
                             f"(valid entries missing: {missing}, unexpected: {extra}; corruptions: {notes})",
                             notes=notes)
-        if case["three"]:
-            for t, e in zip(got, expected):
-                if e[0] is not None and t.name != e[0]:
-                    raise Violation("from_string:name", f"entry named {t.name!r}, its name line says {e[0]!r}")
-    cls = ["3-line" if case["three"] else "2-line", f"error:{case['error']}", f"comments:{comments}"]
+        def bare(nm):
+            # the "0 NAME" spelling of a name line (3LE files of Space-Track): the library drops the "0 "
+            nm = nm or ""
+            return nm[2:].strip() if nm.startswith("0 ") else nm
+
+        for t, e in zip(got, expected):
+            if bare(t.name) != bare(e[0]):
+                raise Violation("from_string:name", f"entry named {t.name!r}, " + (f"its name line says {e[0]!r}" if e[0] is not None
+                                else "it has no name line (the line before its line 1 is a TLE line or nothing)"))
+    cls = [("mixed" if len({bool(e.get("named")) for e in case["entries"]}) == 2 else "3-line" if case["three"] else "2-line"), f"error:{case['error']}", f"comments:{comments}"]
     if case.get("together"):
         cls.append("two-readings-alive")
     cls += sorted({f"cor:{e['corrupt']['kind']}" for e in case["entries"] if e["corrupt"]})
